@@ -13,6 +13,11 @@ MC = [
     ("HashJoinOp", "SPECIFICATION Spec\nCONSTANTS P = 3\n  NeedsDrain = FALSE\n  BuildRows = {0,1}\n"
      "INVARIANTS NoLostWake NoParkedOnSetFlag DirectoryExclusive ProbeAfterAllInserted CountsConsistent\n"
      "PROPERTY Termination\nCHECK_DEADLOCK FALSE\n", "hash join protocol, P=3, inner join"),
+    ("HashAggOp", "SPECIFICATION Spec\nCONSTANTS P = 4\n  Distinct = TRUE\nINVARIANTS TypeOK DistinctMergeReadsAllFlushes DistinctAggReadsAllMerges MergeReadsAllFlushes ScanReadsAllMerges ParkedDisjoint\nPROPERTY Termination\nCHECK_DEADLOCK FALSE\n",
+     "hash aggregate protocol, P=4, with DISTINCT aggregates"),
+    ("HashAggOp", "SPECIFICATION Spec\nCONSTANTS P = 4\n  Distinct = FALSE\nINVARIANTS TypeOK DistinctMergeReadsAllFlushes DistinctAggReadsAllMerges MergeReadsAllFlushes ScanReadsAllMerges ParkedDisjoint\nPROPERTY Termination\nCHECK_DEADLOCK FALSE\n",
+     "hash aggregate protocol, P=4, without DISTINCT aggregates"),
+    ("SortMergeOp", "SPECIFICATION Spec\nCONSTANTS P = 3\n  MaxBlocks = 2\nINVARIANTS TypeOK ParkedDisjoint RunsDisjoint AtMostOneDrainer FinalRunIsEverything\nPROPERTY Termination\nCHECK_DEADLOCK FALSE\n", "sort merge queue protocol, P=3, 0-2 sorted blocks per partition"),
 ]
 
 
@@ -27,6 +32,8 @@ def model_check(rep, tier):
             rep.mismatch({"family": "mc", "module": mod, "violated": r.violated, "config": label},
                          {"tlc_tail": r.out[-3000:]})
         never = [a for a, n in r.coverage.items() if n == 0 and a[0].isupper()]
+        if "without DISTINCT" in label:      # the DISTINCT phases are unreachable by construction in this configuration
+            never = [a for a in never if "Distinct" not in a]
         if never:
             rep.tool_error(f"vacuity: actions never taken in {label}: {never}")
 
@@ -126,7 +133,7 @@ def threaded_family(rep, tier, rng):
         cases.append({"id": i, "rt": {"kind": "threaded", "threads": rng.choice([1, 2, 4, 16])}, "events": True,
                       "knobs": {"table_chunk_capacity": 4}, "steps": steps, "timeout": 60})
     res = vlib.Driver(nworkers=6, case_timeout=60).run(cases)
-    task_traces, hj_lines, nstmts, all_events = [], [], 0, []
+    task_traces, hj_lines, ha_lines, sm_lines, nstmts, all_events = [], [], [], [], 0, []
     for c, r in zip(cases, res):
         rep.cov["evaluations"] += 1
         if r is None or "steps" not in r:
@@ -149,6 +156,8 @@ def threaded_family(rep, tier, rng):
             task_traces.append(t)
             nstmts += len(r["steps"])
         hj_lines += conc.hashjoin_traces(r.get("events", []), failed_stmts)
+        ha_lines += conc.hashagg_traces(r.get("events", []), failed_stmts)
+        sm_lines += conc.sortmerge_traces(r.get("events", []), failed_stmts)
         all_events.append(r.get("events", []))
     mm = conc.validate(rep, "TraceTask", conc.join_task_traces(task_traces), "C04-tv-task", "thread-pool task events")
     for m in mm:
@@ -156,13 +165,20 @@ def threaded_family(rep, tier, rng):
     mm = conc.validate(rep, "TraceHashJoin", hj_lines, "C04-tv-hj", "hash join protocol events")
     for m in mm:
         rep.mismatch({"family": "hashjoin-trace", "what": m.get("what"), "ev": m.get("ev"), "lab": m.get("lab")}, m)
+    mm = conc.validate(rep, "TraceHashAgg", ha_lines, "C04-tv-ha", "hash aggregate protocol events")
+    for m in mm:
+        rep.mismatch({"family": "hashagg-trace", "what": m.get("what"), "ev": m.get("ev"), "lab": m.get("lab")}, m)
+    mm = conc.validate(rep, "TraceSortMerge", sm_lines, "C04-tv-sm", "sort merge queue events")
+    for m in mm:
+        rep.mismatch({"family": "sortmerge-trace", "what": m.get("what"), "ev": m.get("ev")}, m)
     plines = conc.generic_primitive_lines(all_events)
     mm = conc.validate(rep, "TracePrims", plines, "C04-tv-prims", "waker/count primitives of all operators")
     for m in mm:
         rep.mismatch({"family": "prims-trace", "what": m.get("what"), "ev": m.get("ev")}, m)
     rep.cov["families"]["threaded"] = {"sessions": len(cases), "primitive_events": len(plines), "statements_with_task_events": nstmts,
-                                      "hash_join_events": len(hj_lines)}
-    if not hj_lines or not task_traces:
+                                      "hash_join_events": len(hj_lines), "hash_aggregate_events": len(ha_lines), "sort_merge_events": len(sm_lines),
+                                      "hash_aggregate_gate_passes": sum(1 for l in ha_lines if l["ev"] == "Pass")}
+    if not hj_lines or not task_traces or not ha_lines or not sm_lines:
         rep.tool_error("vacuity: no hook events recorded (are the cfg(glaredb_verif) hooks compiled in?)")
     stores = sum(1 for l in hj_lines if l["ev"] == "Store")
     rep.cov["families"]["threaded"]["hash_join_parkings"] = stores
